@@ -614,4 +614,11 @@ type Comment struct {
 }
 
 func (c *Comment) Pos() Pos { return c.Hash }
-func (c *Comment) End() Pos { return c.Hash.shift(len(c.Text)) }
+func (c *Comment) End() Pos {
+	// columns count characters
+	n := 0
+	for range c.Text {
+		n++
+	}
+	return c.Hash.shift(n)
+}
